@@ -67,6 +67,11 @@ def run(ctx: Ctx) -> None:
     fr = [n for n in walk_local(h2i) if isinstance(n, ast.Assign) and norm(n.targets[0]) == "self.connection.DEFAULT_MAX_INBOUND_FRAME_SIZE"]
     ok = len(fr) == 1 and norm(fr[0].value) == "config.h2_max_inbound_frame_size"
     ctx.check("C18.R1", "protocol.h2:H2Protocol.__init__", "DEFAULT_MAX_INBOUND_FRAME_SIZE = config.h2_max_inbound_frame_size", ok, "inbound frame size limit not wired", fr[0] if fr else h2i)
+    dec = [n for n in walk_local(h2i) if isinstance(n, ast.Assign) and norm(n.targets[0]) == "self.connection.decoder.max_header_list_size"]
+    upd = [c for c in calls(h2i) if call_name(c) == "self.connection.update_settings" and "MAX_HEADER_LIST_SIZE" in norm(c)]
+    ok = (len(dec) == 1 and norm(dec[0].value) == "config.h2_max_header_list_size" and not guard_atoms(dec[0])) or bool(upd)
+    ctx.check("C18.R1", "protocol.h2:H2Protocol.__init__", "h2_max_header_list_size reaches the HPACK decoder", ok,
+              "h2 copies MAX_HEADER_LIST_SIZE to its decoder only when an acknowledged settings change arrives; replacing local_settings is not a change, so the configured limit is advertised but header blocks are checked against h2's default 65536", dec[0] if dec else h2i)
     ws = repo.func("protocol.ws_stream", "WSStream.__init__")
     wb = [c for c in calls(ws) if call_name(c) == "WebsocketBuffer"]
     ok = len(wb) == 1 and norm(arg(wb[0], 0)) == "config.websocket_max_message_size"
